@@ -151,7 +151,8 @@ def run_query(A, q):
         if k == "prefix":
             return {"ok": list(A.initial_accepted_subword(pyword(q["w"])))}
         if k == "rejprefix":
-            return {"ok": list(A.initial_rejected_subword(pyword(q["w"])))}
+            r = A.initial_rejected_subword(pyword(q["w"]))
+            return {"ok": None if r is None else list(r)}
         if k == "enum_fixed":
             return {"ok": [[list(w), e] for w, e in A.enumerate_fixed_length_paths(q["n"], start_vertex=q.get("v"), with_states=True)]}
         if k == "enum_words":
@@ -277,8 +278,9 @@ def run_lang_oracle(inp):
                 best = max((w[:j] for j in range(len(w) + 1) if ref.follow(s0, w[:j]) is not None), key=len)
                 if list(A.initial_accepted_subword(pw)) != list(best):
                     bad.append(["initial_accepted_subword", pw, A.initial_accepted_subword(pw)])
-                rej = list(A.initial_rejected_subword(pw))
-                want = list(w) if end is not None else list(w[:len(best) + 1])
+                rej = A.initial_rejected_subword(pw)
+                rej = None if rej is None else list(rej)
+                want = None if end is not None else list(w[:len(best) + 1])     # None exactly for accepted words
                 if rej != want:
                     bad.append(["initial_rejected_subword", pw, rej])
         tot = []
